@@ -104,6 +104,13 @@ pub fn parse_nodes(s: &str) -> Vec<VNode> {
 /// exact optimum over all assignments satisfying the hard constraints (any subset of the non-fixed courses may be cancelled);
 /// returns the best assignment and its score, None if there is none; gives up (Err) beyond a work limit
 pub fn brute_force(inst: &Inst, limit: u64) -> Result<Option<(Vec<Option<usize>>, u64)>, ()> {
+    brute_force_opt(inst, limit, false)
+}
+
+/// `nofree`: only cancellation sets that do NOT cancel a course one of whose instructors has own choices ("no instructor is freed").  The
+/// optimum over these is what the search must reach even in class TC: defect D2 is that the tree never cancels a course in order to free
+/// its instructor.
+pub fn brute_force_opt(inst: &Inst, limit: u64, nofree: bool) -> Result<Option<(Vec<Option<usize>>, u64)>, ()> {
     let nc = inst.courses.len();
     let np = inst.parts.len();
     let mut best: Option<(Vec<Option<usize>>, u64)> = None;
@@ -111,6 +118,9 @@ pub fn brute_force(inst: &Inst, limit: u64) -> Result<Option<(Vec<Option<usize>>
     let instr_of: Vec<Option<usize>> = (0..np).map(|p| inst.courses.iter().position(|c| c.instr.contains(&p))).collect();
     for kmask in 0u32..(1 << nc) {
         if (0..nc).any(|c| kmask >> c & 1 == 1 && inst.courses[c].fixed) {
+            continue;
+        }
+        if nofree && (0..nc).any(|c| kmask >> c & 1 == 1 && inst.courses[c].instr.iter().any(|p| !inst.parts[*p].is_empty())) {
             continue;
         }
         let cancelled = |c: usize| kmask >> c & 1 == 1;
@@ -264,7 +274,10 @@ pub fn run(plan: SPlan, shards: usize, outdir: &str, replay: Option<String>) {
             "result": run.result.as_ref().map(|(a, s)| json!({"assignment": a, "score": s})),
             "stats": run.stats, "problems": run.problems, "events": run.events.len(),
             "brute_force": match bf { None => json!("not computed"), Some(None) => json!("no feasible assignment"),
-                                      Some(Some((a, s))) => json!({"assignment": a, "score": s}) }});
+                                      Some(Some((a, s))) => json!({"assignment": a, "score": s}) },
+            "brute_force_nofree": match bf { None => json!("not computed"),
+                                             Some(_) => match brute_force_opt(inst, 4_000_000, true) { Err(_) => json!("not computed"), Ok(None) => json!("no feasible assignment"),
+                                                                                                       Ok(Some((a, s))) => json!({"assignment": a, "score": s}) } }});
         cases.push((g_solve_case(inst, k, &run, &better), meta));
     };
     if let Some(path) = replay {
